@@ -102,6 +102,12 @@ func c01Run(c *vk.Ctx, i int, cfgIdx int, o rigOpts) {
 			seenIDs[id] = true
 		}
 		cur = cur.Apply(b)
+		if o.SegVer == 2 {
+			// ice v2 keeps ONE stored-field decompression buffer per segment, which a running merge and a
+			// reader loading stored fields share (known finding of C15): with v2 the reader is compared
+			// only while no merge is running
+			waitQuietRig(w, !o.Mem)
+		}
 		rd, err := w.Reader()
 		if err != nil {
 			c.Violate("reader-error", err.Error(), nil)
